@@ -9,7 +9,7 @@ _EP_RULE = ("endpoint stream: ONE real endpoint whose peer is the harness (it an
             "messages it emitted (local port numbers renamed by first appearance), the dispatcher status (running/ok/reset/protocol/panic) and the "
             "connect outcomes are compared with the model; distinct = distinct input")
 PROP = {
-    "props_files": ["Props/C07.v"],
+    "props_files": ["Props/C07.v", "Props/C07b.v"],
     "jobs": [
         {"component": "endpoint", "comp_num": 7, "quick": 1600, "thorough": 60000, "timeout": 3000},
         {"component": "net", "comp_num": 70, "quick": 320, "thorough": 20000, "args": ["--stream", "0"], "timeout": 3000},
@@ -23,10 +23,20 @@ PROP = {
                   "differential (orderly shutdown sequences end with status Ok in model and code) and by a two-endpoint lifecycle stream: ports opened in "
                   "both directions over 1-3 cycles, traffic, a pending connect and an unanswered request, everything dropped in random order with and "
                   "without barriers; oracle: both dispatchers return Ok(()) without the transport being closed, concurrently open ports never share a number "
-                  "or exceed max_ports, every number of both allocators can be allocated again, no background task is left.",
-    "level_note": "PARTIAL: the two-endpoint statement (both dispatchers finish successfully once everything is dropped on both sides) is exercised by the "
-                  "lifecycle stream and follows informally from the per-endpoint theorems plus FIFO links; it is not proved as a theorem about the composed "
-                  "system. Helper tasks are modelled as notifier steps; their exit is observed through the runtime's alive-task counter.",
+                  "or exceed max_ports, every number of both allocators can be allocated again, no background task is left. "
+                  "Composed system (Props/C07b.v; Chmux/Net*.v: two endpoint models joined by two FIFO links): from every reachable state without a "
+                  "protocol error in which no user object is left on either side (clients, listener, every sender and receiver half dropped, every request "
+                  "dropped or answered, no accept under way) there is a run of the remaining system actions (drop notifiers, dispatcher steps, deliveries) "
+                  "after which both dispatchers have ended with Goodbye sent and received; proved by a measure: in such a state every enabled system "
+                  "action keeps the state good and strictly decreases the measure, and a state in which none is enabled has both dispatchers ended "
+                  "successfully (no table entry, outstanding request or frame can be left behind); the all-clients-dropped marker is never lost and a sent "
+                  "Goodbye is always in flight or received.",
+    "level_note": "PARTIAL: the two-endpoint statement is now PROVED for the composed model (C07_both_terminate, C07_system_action_decreases, "
+                  "C07_stuck_is_finished) and additionally exercised by the lifecycle stream. Remaining gaps: the termination theorem carries the alternative "
+                  "'or a quantity error ends the connection' because data events queued before the drop are not bounded by credits in the endpoint model "
+                  "(C02/PortFlow.v proves the credit discipline for one port); fairness of the scheduler (that the enabled system actions are eventually taken) "
+                  "is assumed, the theorem gives the run. Helper tasks are modelled as notifier steps; their exit is observed through the runtime's "
+                  "alive-task counter.",
     "trivial_sig": r"malformed",
     "rule": _EP_RULE + " net stream 0: lifecycle as described in level_text.",
     "assumptions": ["paused-clock quiescence barrier", "tokio RuntimeMetrics::num_alive_tasks"],
